@@ -322,7 +322,7 @@ CONSTANTS Depth,      \* number of calls of a program
 VARIABLES st, prev, last, plast, hist
 vars == <<st, prev, last, plast, hist>>
 Gammas == IF Grid = 1 THEN {<<2, 1>>} ELSE {<<1, 2>>, <<1, 1>>, <<2, 1>>}
-Epsilons == IF Grid = 1 THEN {<<1, 2>>} ELSE {<<0, 1>>, <<1, 2>>}
+Epsilons == IF Grid = 1 THEN {<<1, 2>>} ELSE {<<0, 1>>, <<1, 2>>, <<2, 1>>}        \* 2: an accuracy beyond 1 (relative notion)
 Generic == {1, 3, 6}                 \* functions given to the steps that take any function
 Starts(ls) == IF ls = <<>> THEN {"L1", "CB"} ELSE {"L1", "CB", "R1"}
 Others(ls) == IF ls = <<>> THEN {"L1", "CB"} ELSE {"L1", "CB", "R2"}
